@@ -1,34 +1,45 @@
 (* C08, elementwise kernels: the Eigen backend's array expressions and the Naive backend's loops
-   compute the same real function, coefficient by coefficient.
+   make the same calls of the partial / library operations on the same arguments, coefficient by
+   coefficient -- hence compute the same real function.
 
-   Gen/ScalarGenEigen.v (translate/gen_scalar_eigen.py, regenerated on every `./check C08`) holds
-   the pointwise meaning efw_<k> / ebw_<k> of every EIGEN_DEV_* invocation, of the binary-operator
-   gradients and of pown in primitiv/devices/eigen/ops; Gen/ScalarGen.v (translate/gen_scalar.py)
-   holds fw_<k> / bw_<k> for primitiv/devices/naive/ops.  Every lemma below says
-   efw_<k> args = fw_<k> args (resp. ebw/bw) for ALL real arguments.
+   Generated on every `./check C08` from /repo as it is now:
+     Gen/ScalarGenEigenAbs.v  aefw_<k> / aebw_<k> o args   (translate/gen_scalar_eigen.py, Eigen)
+     Gen/ScalarGenAbs.v       afw_<k>  / abw_<k>  o args   (translate/gen_scalar.py, Naive)
+   where `/`, pow, exp, log, sqrt, tanh, sin, cos, tan are the fields of an ARBITRARY
+   interpretation o : ops (Backend/AbsOps.v), and
+     Gen/ScalarGenEigen.v     efw_<k> / ebw_<k> args,   Gen/ScalarGen.v   fw_<k> / bw_<k> args
+   the same trees over Coq's real functions (Rdiv, Rpower, exp, ln, sqrt, tanh, sin, cos, tan).
 
-   About domain hypotheses.  None is needed and none is stated: wherever a partial operation
-   occurs (division, ln, sqrt, Rpower = std::pow) the two backends apply the SAME operation to the
-   SAME arguments, so the two sides are equal whatever value Coq's total function takes outside
-   its domain.  Read at such a point (x = 0 for k / x, x <= 0 for log and for a power with a
-   non-integer exponent, ...) the equality says "same call on both backends", not "this number".
-   The kinks: prelu, elu and abs use `x > 0` / `x <= 0` on both backends and sign(0) = 0 =
-   (0 > 0) - (0 < 0), so the two formulas agree AT x = 0 as well (see the *_at_kink examples);
-   there is no point where they differ.
+   HEADLINE (section "abstract"): <k>_{fw,bw}_same_abs : for every o and all real arguments
+     aefw_<k> o args = afw_<k> o args.
+   Because o is arbitrary these cannot hold through the way Coq completes a partial function
+   (Rpower a b = exp (b * ln a), x / 0 = x * / 0, ln x = 0 for x <= 0, sqrt x = 0 for x < 0):
+   if one backend wrote pow(a, b) and the other exp(b * log(a)) the statement would be false for
+   some o and the proof breaks, although over Coq's R both are the same term.  What the proofs
+   use besides "same call, same arguments": ring identities of + - * on R (exact real arithmetic
+   in both readings; float rounding is outside the theorems), case splits on real comparisons,
+   and two properties of library operations that appear as explicit hypotheses:
+     elu, forward:        op_exp o 0 = 1          Naive evaluates x*(x>0) + k*(exp(x*(x<=0)) - 1),
+                                                   i.e. exp(0) for x > 0; Eigen selects x there
+     divide, backward gb: op_div o (p*r) q = op_div o p q * r
+                                                   Naive computes -(gy / b) * y, Eigen -(gy * y) / b:
+                                                   two different calls of the division, equal for real
+                                                   division (and up to rounding in float32)
+   pown: both backends run the same square-and-multiply loop (proved in lock step, for every
+   exponent k : Z; `remain` is a uint32, so 32 iterations are the whole loop) and both end with
+   op_div o 1 ret for k < 0.
 
-   What this is not: a statement about float32.  Rounding, the accuracy of Eigen's packet
-   implementations of exp/log/tanh/sin/cos, flush-to-zero and the ends of the float range (known
-   finding D34: Eigen's vectorised exp overflows earlier than expf) are compared on the pair grid
-   (harness/elem_pair_drv.cc); the batch/broadcast loops around the expressions by the tensor
-   streams of engines/c08.py.
+   COROLLARIES (section "concrete"): instantiating o := Rops gives exactly the concrete
+   definitions (inst_<k>: by reflexivity), so <k>_{fw,bw}_same : efw_<k> args = fw_<k> args for all
+   real arguments follow.  At the kinks of prelu / elu / abs the two formulas agree as well
+   (lemmas prelu_at_kink, elu_at_kink, abs_at_kink); there is no point where they differ.
 
-   The proofs do not depend on the exact shape of a formula: comparisons are split by cases and
-   the rest is ring/lra after unfolding, so an algebraically equivalent rewrite on either side
-   keeps them alive (sigmoid and softplus additionally accept the logistic form 1/(1+e^-x) and
-   the one-branch form ln(1+e^x), which are the same real functions), and a real change breaks
-   exactly the lemma of the kernel that was changed. *)
+   Not covered, in either form: float32 rounding, the accuracy of Eigen's packet exp/log/tanh/
+   sin/cos, flush-to-zero, the ends of the float range (known finding D34), NaN inputs -- pair grid
+   (harness/elem_pair_drv.cc); the batch / broadcast loops around the expressions -- tensor streams. *)
 From Coq Require Import Reals ZArith NArith List String Bool Lra Lia.
-From PV Require Import Scalar.ScalarBase Gen.ScalarGen Backend.EigenBase Gen.ScalarGenEigen.
+From PV Require Import Scalar.ScalarBase Backend.EigenBase Backend.AbsOps.
+From PV Require Import Gen.ScalarGen Gen.ScalarGenEigen Gen.ScalarGenAbs Gen.ScalarGenEigenAbs.
 Import ListNotations.
 Local Open Scope R_scope.
 
@@ -42,43 +53,27 @@ Ltac split_cmps :=
   | |- context [Rge_dec ?a ?b] => destruct (Rge_dec a b)
   end.
 
-Ltac same_core :=
-  unfold esign, b01, Rmax, Rmin;
-  split_cmps;
-  try (exfalso; lra);
-  rewrite ?Rmult_0_r, ?Rmult_1_r, ?Rmult_0_l, ?Rmult_1_l, ?exp_0;
-  first [ reflexivity | ring | (unfold Rdiv; ring) | lra ].
+(* equal up to ring identities, also inside the arguments of an uninterpreted operation *)
+Ltac cring :=
+  first [ reflexivity | ring
+        | match goal with
+          | |- ?f ?a ?b = ?f ?c ?d => apply f_equal2; cring
+          | |- ?f ?a = ?f ?b => apply (f_equal f); cring
+          end ].
 
 Ltac head_of t := match t with ?f _ => head_of f | _ => t end.
 Ltac unfold_heads :=
   match goal with |- ?l = ?r => let a := head_of l in let b := head_of r in unfold a, b end.
 
-Ltac same := intros; unfold_heads; same_core.
+Ltac same_core :=
+  unfold esign, b01, Rmax, Rmin;
+  split_cmps;
+  try (exfalso; lra);
+  rewrite ?Rmult_0_r, ?Rmult_1_r, ?Rmult_0_l, ?Rmult_1_l;
+  first [ cring | lra ].
 
-(* ---------------------------------------------------------------- two facts of real analysis
-   (restated here so that this file does not depend on the theorems about the Naive formulas) *)
-
-Lemma tanh_half_logistic x : 1 / 2 + 1 / 2 * tanh (1 / 2 * x) = 1 / (1 + exp (- x)).
-Proof.
-  unfold tanh, sinh, cosh.
-  replace (exp (- x)) with (/ (exp (1 / 2 * x) * exp (1 / 2 * x)))
-    by (rewrite <- exp_plus, <- exp_Ropp; f_equal; field).
-  rewrite exp_Ropp. pose proof (exp_pos (1 / 2 * x)) as P.
-  generalize dependent (exp (1 / 2 * x)). intros E P. field. split; nra.
-Qed.
-
-Lemma softplus_branches x :
-  (if Rgt_dec x 0 then x + ln (1 + exp (- x)) else ln (1 + exp x)) = ln (1 + exp x).
-Proof.
-  destruct (Rgt_dec x 0); [|reflexivity].
-  pose proof (exp_pos x). pose proof (exp_pos (- x)).
-  rewrite <- (ln_exp x) at 1. rewrite <- ln_mult by lra. f_equal.
-  rewrite exp_Ropp. field. lra.
-Qed.
-
-(* the stabilised forms are first brought to 1/(1+e^-x) and ln(1+e^x) on both sides *)
-Ltac same_stable :=
-  intros; unfold_heads; rewrite ?softplus_branches, ?tanh_half_logistic; same_core.
+(* no property of any operation of o is used *)
+Ltac same_abs := intros; unfold_heads; same_core.
 
 (* ---------------------------------------------------------------- pown: two loops in lock step *)
 
@@ -98,219 +93,631 @@ Definition pown_rel (s : R * R * N) (t : R * N * R) : Prop :=
   let '(y, remain', factor') := t in
   ret = y /\ factor = factor' /\ remain = remain'.
 
-(* ---------------------------------------------------------------- one lemma per kernel *)
+(* ================================================================ abstract: for every o : ops *)
 
-Lemma abs_fw_same (x : R) : efw_abs x = fw_abs x.
-Proof. same. Qed.
+Lemma abs_fw_same_abs (o : ops) (x : R) : aefw_abs o x = afw_abs o x.
+Proof. same_abs. Qed.
 
-Lemma abs_bw_same (x : R) (y : R) (gy : R) : ebw_abs x y gy = bw_abs x y gy.
-Proof. same. Qed.
+Lemma abs_bw_same_abs (o : ops) (x : R) (y : R) (gy : R) : aebw_abs o x y gy = abw_abs o x y gy.
+Proof. same_abs. Qed.
 
-Lemma add_const_fw_same (x : R) (k : R) : efw_add_const x k = fw_add_const x k.
-Proof. same. Qed.
+Lemma add_const_fw_same_abs (o : ops) (x : R) (k : R) : aefw_add_const o x k = afw_add_const o x k.
+Proof. same_abs. Qed.
 
-Lemma add_const_bw_same (x : R) (y : R) (gy : R) (k : R) : ebw_add_const x y gy k = bw_add_const x y gy k.
-Proof. same. Qed.
+Lemma add_const_bw_same_abs (o : ops) (x : R) (y : R) (gy : R) (k : R) : aebw_add_const o x y gy k = abw_add_const o x y gy k.
+Proof. same_abs. Qed.
 
-Lemma add_scalar_fw_same (x : R) (k : R) : efw_add_scalar x k = fw_add_scalar x k.
-Proof. same. Qed.
+Lemma add_scalar_fw_same_abs (o : ops) (x : R) (k : R) : aefw_add_scalar o x k = afw_add_scalar o x k.
+Proof. same_abs. Qed.
 
-Lemma add_fw_same (a : R) (b : R) : efw_add a b = fw_add a b.
-Proof. same. Qed.
+Lemma add_fw_same_abs (o : ops) (a : R) (b : R) : aefw_add o a b = afw_add o a b.
+Proof. same_abs. Qed.
 
-Lemma add_a_bw_same (a : R) (b : R) (y : R) (gy : R) : ebw_add_a a b y gy = bw_add_a a b y gy.
-Proof. same. Qed.
+Lemma add_a_bw_same_abs (o : ops) (a : R) (b : R) (y : R) (gy : R) : aebw_add_a o a b y gy = abw_add_a o a b y gy.
+Proof. same_abs. Qed.
 
-Lemma add_b_bw_same (a : R) (b : R) (y : R) (gy : R) : ebw_add_b a b y gy = bw_add_b a b y gy.
-Proof. same. Qed.
+Lemma add_b_bw_same_abs (o : ops) (a : R) (b : R) (y : R) (gy : R) : aebw_add_b o a b y gy = abw_add_b o a b y gy.
+Proof. same_abs. Qed.
 
-Lemma cos_fw_same (x : R) : efw_cos x = fw_cos x.
-Proof. same. Qed.
+Lemma cos_fw_same_abs (o : ops) (x : R) : aefw_cos o x = afw_cos o x.
+Proof. same_abs. Qed.
 
-Lemma cos_bw_same (x : R) (y : R) (gy : R) : ebw_cos x y gy = bw_cos x y gy.
-Proof. same. Qed.
+Lemma cos_bw_same_abs (o : ops) (x : R) (y : R) (gy : R) : aebw_cos o x y gy = abw_cos o x y gy.
+Proof. same_abs. Qed.
 
-Lemma divide_const_r_fw_same (x : R) (k : R) : efw_divide_const_r x k = fw_divide_const_r x k.
-Proof. same. Qed.
+Lemma divide_const_r_fw_same_abs (o : ops) (x : R) (k : R) : aefw_divide_const_r o x k = afw_divide_const_r o x k.
+Proof. same_abs. Qed.
 
-Lemma divide_const_r_bw_same (x : R) (y : R) (gy : R) (k : R) : ebw_divide_const_r x y gy k = bw_divide_const_r x y gy k.
-Proof. same. Qed.
+Lemma divide_const_r_bw_same_abs (o : ops) (x : R) (y : R) (gy : R) (k : R) : aebw_divide_const_r o x y gy k = abw_divide_const_r o x y gy k.
+Proof. same_abs. Qed.
 
-Lemma divide_const_l_fw_same (x : R) (k : R) : efw_divide_const_l x k = fw_divide_const_l x k.
-Proof. same. Qed.
+Lemma divide_const_l_fw_same_abs (o : ops) (x : R) (k : R) : aefw_divide_const_l o x k = afw_divide_const_l o x k.
+Proof. same_abs. Qed.
 
-Lemma divide_const_l_bw_same (x : R) (y : R) (gy : R) (k : R) : ebw_divide_const_l x y gy k = bw_divide_const_l x y gy k.
-Proof. same. Qed.
+Lemma divide_const_l_bw_same_abs (o : ops) (x : R) (y : R) (gy : R) (k : R) : aebw_divide_const_l o x y gy k = abw_divide_const_l o x y gy k.
+Proof. same_abs. Qed.
 
-Lemma divide_scalar_r_fw_same (x : R) (k : R) : efw_divide_scalar_r x k = fw_divide_scalar_r x k.
-Proof. same. Qed.
+Lemma divide_scalar_r_fw_same_abs (o : ops) (x : R) (k : R) : aefw_divide_scalar_r o x k = afw_divide_scalar_r o x k.
+Proof. same_abs. Qed.
 
-Lemma divide_scalar_l_fw_same (x : R) (k : R) : efw_divide_scalar_l x k = fw_divide_scalar_l x k.
-Proof. same. Qed.
+Lemma divide_scalar_l_fw_same_abs (o : ops) (x : R) (k : R) : aefw_divide_scalar_l o x k = afw_divide_scalar_l o x k.
+Proof. same_abs. Qed.
 
-Lemma divide_fw_same (a : R) (b : R) : efw_divide a b = fw_divide a b.
-Proof. same. Qed.
+Lemma divide_fw_same_abs (o : ops) (a : R) (b : R) : aefw_divide o a b = afw_divide o a b.
+Proof. same_abs. Qed.
 
-Lemma divide_a_bw_same (a : R) (b : R) (y : R) (gy : R) : ebw_divide_a a b y gy = bw_divide_a a b y gy.
-Proof. same. Qed.
+Lemma divide_a_bw_same_abs (o : ops) (a : R) (b : R) (y : R) (gy : R) : aebw_divide_a o a b y gy = abw_divide_a o a b y gy.
+Proof. same_abs. Qed.
 
-Lemma divide_b_bw_same (a : R) (b : R) (y : R) (gy : R) : ebw_divide_b a b y gy = bw_divide_b a b y gy.
-Proof. same. Qed.
+Lemma divide_b_bw_same_abs (o : ops) (Hdiv : forall p q r, op_div o (p * r) q = op_div o p q * r) (a : R) (b : R) (y : R) (gy : R) :
+  aebw_divide_b o a b y gy = abw_divide_b o a b y gy.
+Proof. intros; unfold_heads; rewrite ?Hdiv; cring. Qed.
 
-Lemma elu_fw_same (x : R) (k : R) : efw_elu x k = fw_elu x k.
-Proof. same. Qed.
+Lemma elu_fw_same_abs (o : ops) (Hexp0 : op_exp o 0 = 1) (x : R) (k : R) : aefw_elu o x k = afw_elu o x k.
+Proof. intros; unfold_heads; unfold b01; split_cmps; try (exfalso; lra); rewrite ?Rmult_0_r, ?Rmult_1_r, ?Hexp0; cring. Qed.
 
-Lemma elu_bw_same (x : R) (y : R) (gy : R) (k : R) : ebw_elu x y gy k = bw_elu x y gy k.
-Proof. same. Qed.
+Lemma elu_bw_same_abs (o : ops) (x : R) (y : R) (gy : R) (k : R) : aebw_elu o x y gy k = abw_elu o x y gy k.
+Proof. same_abs. Qed.
 
-Lemma exp_fw_same (x : R) : efw_exp x = fw_exp x.
-Proof. same. Qed.
+Lemma exp_fw_same_abs (o : ops) (x : R) : aefw_exp o x = afw_exp o x.
+Proof. same_abs. Qed.
 
-Lemma exp_bw_same (x : R) (y : R) (gy : R) : ebw_exp x y gy = bw_exp x y gy.
-Proof. same. Qed.
+Lemma exp_bw_same_abs (o : ops) (x : R) (y : R) (gy : R) : aebw_exp o x y gy = abw_exp o x y gy.
+Proof. same_abs. Qed.
 
-Lemma log_fw_same (x : R) : efw_log x = fw_log x.
-Proof. same. Qed.
+Lemma log_fw_same_abs (o : ops) (x : R) : aefw_log o x = afw_log o x.
+Proof. same_abs. Qed.
 
-Lemma log_bw_same (x : R) (y : R) (gy : R) : ebw_log x y gy = bw_log x y gy.
-Proof. same. Qed.
+Lemma log_bw_same_abs (o : ops) (x : R) (y : R) (gy : R) : aebw_log o x y gy = abw_log o x y gy.
+Proof. same_abs. Qed.
 
-Lemma multiply_const_fw_same (x : R) (k : R) : efw_multiply_const x k = fw_multiply_const x k.
-Proof. same. Qed.
+Lemma multiply_const_fw_same_abs (o : ops) (x : R) (k : R) : aefw_multiply_const o x k = afw_multiply_const o x k.
+Proof. same_abs. Qed.
 
-Lemma multiply_const_bw_same (x : R) (y : R) (gy : R) (k : R) : ebw_multiply_const x y gy k = bw_multiply_const x y gy k.
-Proof. same. Qed.
+Lemma multiply_const_bw_same_abs (o : ops) (x : R) (y : R) (gy : R) (k : R) : aebw_multiply_const o x y gy k = abw_multiply_const o x y gy k.
+Proof. same_abs. Qed.
 
-Lemma multiply_scalar_fw_same (x : R) (k : R) : efw_multiply_scalar x k = fw_multiply_scalar x k.
-Proof. same. Qed.
+Lemma multiply_scalar_fw_same_abs (o : ops) (x : R) (k : R) : aefw_multiply_scalar o x k = afw_multiply_scalar o x k.
+Proof. same_abs. Qed.
 
-Lemma multiply_fw_same (a : R) (b : R) : efw_multiply a b = fw_multiply a b.
-Proof. same. Qed.
+Lemma multiply_fw_same_abs (o : ops) (a : R) (b : R) : aefw_multiply o a b = afw_multiply o a b.
+Proof. same_abs. Qed.
 
-Lemma multiply_a_bw_same (a : R) (b : R) (y : R) (gy : R) : ebw_multiply_a a b y gy = bw_multiply_a a b y gy.
-Proof. same. Qed.
+Lemma multiply_a_bw_same_abs (o : ops) (a : R) (b : R) (y : R) (gy : R) : aebw_multiply_a o a b y gy = abw_multiply_a o a b y gy.
+Proof. same_abs. Qed.
 
-Lemma multiply_b_bw_same (a : R) (b : R) (y : R) (gy : R) : ebw_multiply_b a b y gy = bw_multiply_b a b y gy.
-Proof. same. Qed.
+Lemma multiply_b_bw_same_abs (o : ops) (a : R) (b : R) (y : R) (gy : R) : aebw_multiply_b o a b y gy = abw_multiply_b o a b y gy.
+Proof. same_abs. Qed.
 
-Lemma negate_fw_same (x : R) : efw_negate x = fw_negate x.
-Proof. same. Qed.
+Lemma negate_fw_same_abs (o : ops) (x : R) : aefw_negate o x = afw_negate o x.
+Proof. same_abs. Qed.
 
-Lemma pow_const_r_fw_same (x : R) (k : R) : efw_pow_const_r x k = fw_pow_const_r x k.
-Proof. same. Qed.
+Lemma pow_const_r_fw_same_abs (o : ops) (x : R) (k : R) : aefw_pow_const_r o x k = afw_pow_const_r o x k.
+Proof. same_abs. Qed.
 
-Lemma pow_const_r_bw_same (x : R) (y : R) (gy : R) (k : R) : ebw_pow_const_r x y gy k = bw_pow_const_r x y gy k.
-Proof. same. Qed.
+Lemma pow_const_r_bw_same_abs (o : ops) (x : R) (y : R) (gy : R) (k : R) : aebw_pow_const_r o x y gy k = abw_pow_const_r o x y gy k.
+Proof. same_abs. Qed.
 
-Lemma pow_const_l_fw_same (x : R) (k : R) : efw_pow_const_l x k = fw_pow_const_l x k.
-Proof. same. Qed.
+Lemma pow_const_l_fw_same_abs (o : ops) (x : R) (k : R) : aefw_pow_const_l o x k = afw_pow_const_l o x k.
+Proof. same_abs. Qed.
 
-Lemma pow_const_l_bw_same (x : R) (y : R) (gy : R) (k : R) : ebw_pow_const_l x y gy k = bw_pow_const_l x y gy k.
-Proof. same. Qed.
+Lemma pow_const_l_bw_same_abs (o : ops) (x : R) (y : R) (gy : R) (k : R) : aebw_pow_const_l o x y gy k = abw_pow_const_l o x y gy k.
+Proof. same_abs. Qed.
 
-Lemma pow_scalar_r_fw_same (x : R) (k : R) : efw_pow_scalar_r x k = fw_pow_scalar_r x k.
-Proof. same. Qed.
+Lemma pow_scalar_r_fw_same_abs (o : ops) (x : R) (k : R) : aefw_pow_scalar_r o x k = afw_pow_scalar_r o x k.
+Proof. same_abs. Qed.
 
-Lemma pow_scalar_l_fw_same (x : R) (k : R) : efw_pow_scalar_l x k = fw_pow_scalar_l x k.
-Proof. same. Qed.
+Lemma pow_scalar_l_fw_same_abs (o : ops) (x : R) (k : R) : aefw_pow_scalar_l o x k = afw_pow_scalar_l o x k.
+Proof. same_abs. Qed.
 
-Lemma pow_fw_same (a : R) (b : R) : efw_pow a b = fw_pow a b.
-Proof. same. Qed.
+Lemma pow_fw_same_abs (o : ops) (a : R) (b : R) : aefw_pow o a b = afw_pow o a b.
+Proof. same_abs. Qed.
 
-Lemma pow_a_bw_same (a : R) (b : R) (y : R) (gy : R) : ebw_pow_a a b y gy = bw_pow_a a b y gy.
-Proof. same. Qed.
+Lemma pow_a_bw_same_abs (o : ops) (a : R) (b : R) (y : R) (gy : R) : aebw_pow_a o a b y gy = abw_pow_a o a b y gy.
+Proof. same_abs. Qed.
 
-Lemma pow_b_bw_same (a : R) (b : R) (y : R) (gy : R) : ebw_pow_b a b y gy = bw_pow_b a b y gy.
-Proof. same. Qed.
+Lemma pow_b_bw_same_abs (o : ops) (a : R) (b : R) (y : R) (gy : R) : aebw_pow_b o a b y gy = abw_pow_b o a b y gy.
+Proof. same_abs. Qed.
 
-Lemma pown_fw_same (x : R) (k : Z) : efw_pown x k = fw_pown x k.
+Lemma pown_fw_same_abs (o : ops) (x : R) (k : Z) : aefw_pown o x k = afw_pown o x k.
 Proof.
-  unfold efw_pown, fw_pown. cbv zeta.
+  unfold aefw_pown, afw_pown. cbv zeta.
   set (n := u32_of_Z _).
-  assert (H : pown_rel (while_fuel 32 pown_loop_cond pown_loop_body (1, x, n))
-                       (while_fuel 32 epown_loop_cond epown_loop_body (1, n, x))).
+  assert (H : pown_rel (while_fuel 32 (apown_loop_cond o) (apown_loop_body o) (1, x, n))
+                       (while_fuel 32 (aepown_loop_cond o) (aepown_loop_body o) (1, n, x))).
   { apply while_fuel_sim.
     - intros [[r f] m] [[y m'] f'] (-> & -> & ->). reflexivity.
     - intros [[r f] m] [[y m'] f'] (-> & -> & ->).
-      unfold pown_loop_body, epown_loop_body, pown_rel. repeat split.
+      unfold apown_loop_body, aepown_loop_body, pown_rel. repeat split.
     - repeat split. }
-  destruct (while_fuel 32 pown_loop_cond pown_loop_body (1, x, n)) as [[r f] m].
-  destruct (while_fuel 32 epown_loop_cond epown_loop_body (1, n, x)) as [[y m'] f'].
+  destruct (while_fuel 32 (apown_loop_cond o) (apown_loop_body o) (1, x, n)) as [[r f] m].
+  destruct (while_fuel 32 (aepown_loop_cond o) (aepown_loop_body o) (1, n, x)) as [[y m'] f'].
   destruct H as (-> & _ & _).
   destruct (Z.leb_spec 0 k), (Z.ltb_spec k 0); try lia; reflexivity.
 Qed.
 
+Lemma pown_bw_same_abs (o : ops) (x : R) (y : R) (gy : R) (k : Z) : aebw_pown o x y gy k = abw_pown o x y gy k.
+Proof. same_abs. Qed.
+
+Lemma prelu_fw_same_abs (o : ops) (x : R) (k : R) : aefw_prelu o x k = afw_prelu o x k.
+Proof. same_abs. Qed.
+
+Lemma prelu_bw_same_abs (o : ops) (x : R) (y : R) (gy : R) (k : R) : aebw_prelu o x y gy k = abw_prelu o x y gy k.
+Proof. same_abs. Qed.
+
+Lemma sigmoid_fw_same_abs (o : ops) (x : R) : aefw_sigmoid o x = afw_sigmoid o x.
+Proof. same_abs. Qed.
+
+Lemma sigmoid_bw_same_abs (o : ops) (x : R) (y : R) (gy : R) : aebw_sigmoid o x y gy = abw_sigmoid o x y gy.
+Proof. same_abs. Qed.
+
+Lemma sin_fw_same_abs (o : ops) (x : R) : aefw_sin o x = afw_sin o x.
+Proof. same_abs. Qed.
+
+Lemma sin_bw_same_abs (o : ops) (x : R) (y : R) (gy : R) : aebw_sin o x y gy = abw_sin o x y gy.
+Proof. same_abs. Qed.
+
+Lemma softplus_fw_same_abs (o : ops) (x : R) : aefw_softplus o x = afw_softplus o x.
+Proof. same_abs. Qed.
+
+Lemma softplus_bw_same_abs (o : ops) (x : R) (y : R) (gy : R) : aebw_softplus o x y gy = abw_softplus o x y gy.
+Proof. same_abs. Qed.
+
+Lemma sqrt_fw_same_abs (o : ops) (x : R) : aefw_sqrt o x = afw_sqrt o x.
+Proof. same_abs. Qed.
+
+Lemma sqrt_bw_same_abs (o : ops) (x : R) (y : R) (gy : R) : aebw_sqrt o x y gy = abw_sqrt o x y gy.
+Proof. same_abs. Qed.
+
+Lemma subtract_const_r_fw_same_abs (o : ops) (x : R) (k : R) : aefw_subtract_const_r o x k = afw_subtract_const_r o x k.
+Proof. same_abs. Qed.
+
+Lemma subtract_const_r_bw_same_abs (o : ops) (x : R) (y : R) (gy : R) (k : R) : aebw_subtract_const_r o x y gy k = abw_subtract_const_r o x y gy k.
+Proof. same_abs. Qed.
+
+Lemma subtract_const_l_fw_same_abs (o : ops) (x : R) (k : R) : aefw_subtract_const_l o x k = afw_subtract_const_l o x k.
+Proof. same_abs. Qed.
+
+Lemma subtract_const_l_bw_same_abs (o : ops) (x : R) (y : R) (gy : R) (k : R) : aebw_subtract_const_l o x y gy k = abw_subtract_const_l o x y gy k.
+Proof. same_abs. Qed.
+
+Lemma subtract_scalar_r_fw_same_abs (o : ops) (x : R) (k : R) : aefw_subtract_scalar_r o x k = afw_subtract_scalar_r o x k.
+Proof. same_abs. Qed.
+
+Lemma subtract_scalar_l_fw_same_abs (o : ops) (x : R) (k : R) : aefw_subtract_scalar_l o x k = afw_subtract_scalar_l o x k.
+Proof. same_abs. Qed.
+
+Lemma subtract_fw_same_abs (o : ops) (a : R) (b : R) : aefw_subtract o a b = afw_subtract o a b.
+Proof. same_abs. Qed.
+
+Lemma subtract_a_bw_same_abs (o : ops) (a : R) (b : R) (y : R) (gy : R) : aebw_subtract_a o a b y gy = abw_subtract_a o a b y gy.
+Proof. same_abs. Qed.
+
+Lemma subtract_b_bw_same_abs (o : ops) (a : R) (b : R) (y : R) (gy : R) : aebw_subtract_b o a b y gy = abw_subtract_b o a b y gy.
+Proof. same_abs. Qed.
+
+Lemma tan_fw_same_abs (o : ops) (x : R) : aefw_tan o x = afw_tan o x.
+Proof. same_abs. Qed.
+
+Lemma tan_bw_same_abs (o : ops) (x : R) (y : R) (gy : R) : aebw_tan o x y gy = abw_tan o x y gy.
+Proof. same_abs. Qed.
+
+Lemma tanh_fw_same_abs (o : ops) (x : R) : aefw_tanh o x = afw_tanh o x.
+Proof. same_abs. Qed.
+
+Lemma tanh_bw_same_abs (o : ops) (x : R) (y : R) (gy : R) : aebw_tanh o x y gy = abw_tanh o x y gy.
+Proof. same_abs. Qed.
+
+(* ================================================================ concrete: o := Rops
+   instantiation is definitional: the abstract trees at Rops ARE the concrete definitions *)
+
+Lemma Rdiv_mul_numerator p q r : p * r / q = p / q * r.
+Proof. unfold Rdiv. ring. Qed.
+
+Lemma inst_abs_fw (x : R) : aefw_abs Rops x = efw_abs x /\ afw_abs Rops x = fw_abs x.
+Proof. split; reflexivity. Qed.
+
+Lemma inst_abs_bw (x : R) (y : R) (gy : R) : aebw_abs Rops x y gy = ebw_abs x y gy /\ abw_abs Rops x y gy = bw_abs x y gy.
+Proof. split; reflexivity. Qed.
+
+Lemma inst_add_const_fw (x : R) (k : R) : aefw_add_const Rops x k = efw_add_const x k /\ afw_add_const Rops x k = fw_add_const x k.
+Proof. split; reflexivity. Qed.
+
+Lemma inst_add_const_bw (x : R) (y : R) (gy : R) (k : R) : aebw_add_const Rops x y gy k = ebw_add_const x y gy k /\ abw_add_const Rops x y gy k = bw_add_const x y gy k.
+Proof. split; reflexivity. Qed.
+
+Lemma inst_add_scalar_fw (x : R) (k : R) : aefw_add_scalar Rops x k = efw_add_scalar x k /\ afw_add_scalar Rops x k = fw_add_scalar x k.
+Proof. split; reflexivity. Qed.
+
+Lemma inst_add_fw (a : R) (b : R) : aefw_add Rops a b = efw_add a b /\ afw_add Rops a b = fw_add a b.
+Proof. split; reflexivity. Qed.
+
+Lemma inst_add_a_bw (a : R) (b : R) (y : R) (gy : R) : aebw_add_a Rops a b y gy = ebw_add_a a b y gy /\ abw_add_a Rops a b y gy = bw_add_a a b y gy.
+Proof. split; reflexivity. Qed.
+
+Lemma inst_add_b_bw (a : R) (b : R) (y : R) (gy : R) : aebw_add_b Rops a b y gy = ebw_add_b a b y gy /\ abw_add_b Rops a b y gy = bw_add_b a b y gy.
+Proof. split; reflexivity. Qed.
+
+Lemma inst_cos_fw (x : R) : aefw_cos Rops x = efw_cos x /\ afw_cos Rops x = fw_cos x.
+Proof. split; reflexivity. Qed.
+
+Lemma inst_cos_bw (x : R) (y : R) (gy : R) : aebw_cos Rops x y gy = ebw_cos x y gy /\ abw_cos Rops x y gy = bw_cos x y gy.
+Proof. split; reflexivity. Qed.
+
+Lemma inst_divide_const_r_fw (x : R) (k : R) : aefw_divide_const_r Rops x k = efw_divide_const_r x k /\ afw_divide_const_r Rops x k = fw_divide_const_r x k.
+Proof. split; reflexivity. Qed.
+
+Lemma inst_divide_const_r_bw (x : R) (y : R) (gy : R) (k : R) : aebw_divide_const_r Rops x y gy k = ebw_divide_const_r x y gy k /\ abw_divide_const_r Rops x y gy k = bw_divide_const_r x y gy k.
+Proof. split; reflexivity. Qed.
+
+Lemma inst_divide_const_l_fw (x : R) (k : R) : aefw_divide_const_l Rops x k = efw_divide_const_l x k /\ afw_divide_const_l Rops x k = fw_divide_const_l x k.
+Proof. split; reflexivity. Qed.
+
+Lemma inst_divide_const_l_bw (x : R) (y : R) (gy : R) (k : R) : aebw_divide_const_l Rops x y gy k = ebw_divide_const_l x y gy k /\ abw_divide_const_l Rops x y gy k = bw_divide_const_l x y gy k.
+Proof. split; reflexivity. Qed.
+
+Lemma inst_divide_scalar_r_fw (x : R) (k : R) : aefw_divide_scalar_r Rops x k = efw_divide_scalar_r x k /\ afw_divide_scalar_r Rops x k = fw_divide_scalar_r x k.
+Proof. split; reflexivity. Qed.
+
+Lemma inst_divide_scalar_l_fw (x : R) (k : R) : aefw_divide_scalar_l Rops x k = efw_divide_scalar_l x k /\ afw_divide_scalar_l Rops x k = fw_divide_scalar_l x k.
+Proof. split; reflexivity. Qed.
+
+Lemma inst_divide_fw (a : R) (b : R) : aefw_divide Rops a b = efw_divide a b /\ afw_divide Rops a b = fw_divide a b.
+Proof. split; reflexivity. Qed.
+
+Lemma inst_divide_a_bw (a : R) (b : R) (y : R) (gy : R) : aebw_divide_a Rops a b y gy = ebw_divide_a a b y gy /\ abw_divide_a Rops a b y gy = bw_divide_a a b y gy.
+Proof. split; reflexivity. Qed.
+
+Lemma inst_divide_b_bw (a : R) (b : R) (y : R) (gy : R) : aebw_divide_b Rops a b y gy = ebw_divide_b a b y gy /\ abw_divide_b Rops a b y gy = bw_divide_b a b y gy.
+Proof. split; reflexivity. Qed.
+
+Lemma inst_elu_fw (x : R) (k : R) : aefw_elu Rops x k = efw_elu x k /\ afw_elu Rops x k = fw_elu x k.
+Proof. split; reflexivity. Qed.
+
+Lemma inst_elu_bw (x : R) (y : R) (gy : R) (k : R) : aebw_elu Rops x y gy k = ebw_elu x y gy k /\ abw_elu Rops x y gy k = bw_elu x y gy k.
+Proof. split; reflexivity. Qed.
+
+Lemma inst_exp_fw (x : R) : aefw_exp Rops x = efw_exp x /\ afw_exp Rops x = fw_exp x.
+Proof. split; reflexivity. Qed.
+
+Lemma inst_exp_bw (x : R) (y : R) (gy : R) : aebw_exp Rops x y gy = ebw_exp x y gy /\ abw_exp Rops x y gy = bw_exp x y gy.
+Proof. split; reflexivity. Qed.
+
+Lemma inst_log_fw (x : R) : aefw_log Rops x = efw_log x /\ afw_log Rops x = fw_log x.
+Proof. split; reflexivity. Qed.
+
+Lemma inst_log_bw (x : R) (y : R) (gy : R) : aebw_log Rops x y gy = ebw_log x y gy /\ abw_log Rops x y gy = bw_log x y gy.
+Proof. split; reflexivity. Qed.
+
+Lemma inst_multiply_const_fw (x : R) (k : R) : aefw_multiply_const Rops x k = efw_multiply_const x k /\ afw_multiply_const Rops x k = fw_multiply_const x k.
+Proof. split; reflexivity. Qed.
+
+Lemma inst_multiply_const_bw (x : R) (y : R) (gy : R) (k : R) : aebw_multiply_const Rops x y gy k = ebw_multiply_const x y gy k /\ abw_multiply_const Rops x y gy k = bw_multiply_const x y gy k.
+Proof. split; reflexivity. Qed.
+
+Lemma inst_multiply_scalar_fw (x : R) (k : R) : aefw_multiply_scalar Rops x k = efw_multiply_scalar x k /\ afw_multiply_scalar Rops x k = fw_multiply_scalar x k.
+Proof. split; reflexivity. Qed.
+
+Lemma inst_multiply_fw (a : R) (b : R) : aefw_multiply Rops a b = efw_multiply a b /\ afw_multiply Rops a b = fw_multiply a b.
+Proof. split; reflexivity. Qed.
+
+Lemma inst_multiply_a_bw (a : R) (b : R) (y : R) (gy : R) : aebw_multiply_a Rops a b y gy = ebw_multiply_a a b y gy /\ abw_multiply_a Rops a b y gy = bw_multiply_a a b y gy.
+Proof. split; reflexivity. Qed.
+
+Lemma inst_multiply_b_bw (a : R) (b : R) (y : R) (gy : R) : aebw_multiply_b Rops a b y gy = ebw_multiply_b a b y gy /\ abw_multiply_b Rops a b y gy = bw_multiply_b a b y gy.
+Proof. split; reflexivity. Qed.
+
+Lemma inst_negate_fw (x : R) : aefw_negate Rops x = efw_negate x /\ afw_negate Rops x = fw_negate x.
+Proof. split; reflexivity. Qed.
+
+Lemma inst_pow_const_r_fw (x : R) (k : R) : aefw_pow_const_r Rops x k = efw_pow_const_r x k /\ afw_pow_const_r Rops x k = fw_pow_const_r x k.
+Proof. split; reflexivity. Qed.
+
+Lemma inst_pow_const_r_bw (x : R) (y : R) (gy : R) (k : R) : aebw_pow_const_r Rops x y gy k = ebw_pow_const_r x y gy k /\ abw_pow_const_r Rops x y gy k = bw_pow_const_r x y gy k.
+Proof. split; reflexivity. Qed.
+
+Lemma inst_pow_const_l_fw (x : R) (k : R) : aefw_pow_const_l Rops x k = efw_pow_const_l x k /\ afw_pow_const_l Rops x k = fw_pow_const_l x k.
+Proof. split; reflexivity. Qed.
+
+Lemma inst_pow_const_l_bw (x : R) (y : R) (gy : R) (k : R) : aebw_pow_const_l Rops x y gy k = ebw_pow_const_l x y gy k /\ abw_pow_const_l Rops x y gy k = bw_pow_const_l x y gy k.
+Proof. split; reflexivity. Qed.
+
+Lemma inst_pow_scalar_r_fw (x : R) (k : R) : aefw_pow_scalar_r Rops x k = efw_pow_scalar_r x k /\ afw_pow_scalar_r Rops x k = fw_pow_scalar_r x k.
+Proof. split; reflexivity. Qed.
+
+Lemma inst_pow_scalar_l_fw (x : R) (k : R) : aefw_pow_scalar_l Rops x k = efw_pow_scalar_l x k /\ afw_pow_scalar_l Rops x k = fw_pow_scalar_l x k.
+Proof. split; reflexivity. Qed.
+
+Lemma inst_pow_fw (a : R) (b : R) : aefw_pow Rops a b = efw_pow a b /\ afw_pow Rops a b = fw_pow a b.
+Proof. split; reflexivity. Qed.
+
+Lemma inst_pow_a_bw (a : R) (b : R) (y : R) (gy : R) : aebw_pow_a Rops a b y gy = ebw_pow_a a b y gy /\ abw_pow_a Rops a b y gy = bw_pow_a a b y gy.
+Proof. split; reflexivity. Qed.
+
+Lemma inst_pow_b_bw (a : R) (b : R) (y : R) (gy : R) : aebw_pow_b Rops a b y gy = ebw_pow_b a b y gy /\ abw_pow_b Rops a b y gy = bw_pow_b a b y gy.
+Proof. split; reflexivity. Qed.
+
+(* the loops are compared as functions first: `reflexivity` on the whole terms would try to run them *)
+Lemma inst_pown_fw (x : R) (k : Z) : aefw_pown Rops x k = efw_pown x k /\ afw_pown Rops x k = fw_pown x k.
+Proof.
+  split.
+  - unfold aefw_pown, efw_pown.
+    change (aepown_loop_cond Rops) with epown_loop_cond. change (aepown_loop_body Rops) with epown_loop_body.
+    reflexivity.
+  - unfold afw_pown, fw_pown.
+    change (apown_loop_cond Rops) with pown_loop_cond. change (apown_loop_body Rops) with pown_loop_body.
+    reflexivity.
+Qed.
+
+Lemma inst_pown_bw (x : R) (y : R) (gy : R) (k : Z) : aebw_pown Rops x y gy k = ebw_pown x y gy k /\ abw_pown Rops x y gy k = bw_pown x y gy k.
+Proof. split; reflexivity. Qed.
+
+Lemma inst_prelu_fw (x : R) (k : R) : aefw_prelu Rops x k = efw_prelu x k /\ afw_prelu Rops x k = fw_prelu x k.
+Proof. split; reflexivity. Qed.
+
+Lemma inst_prelu_bw (x : R) (y : R) (gy : R) (k : R) : aebw_prelu Rops x y gy k = ebw_prelu x y gy k /\ abw_prelu Rops x y gy k = bw_prelu x y gy k.
+Proof. split; reflexivity. Qed.
+
+Lemma inst_sigmoid_fw (x : R) : aefw_sigmoid Rops x = efw_sigmoid x /\ afw_sigmoid Rops x = fw_sigmoid x.
+Proof. split; reflexivity. Qed.
+
+Lemma inst_sigmoid_bw (x : R) (y : R) (gy : R) : aebw_sigmoid Rops x y gy = ebw_sigmoid x y gy /\ abw_sigmoid Rops x y gy = bw_sigmoid x y gy.
+Proof. split; reflexivity. Qed.
+
+Lemma inst_sin_fw (x : R) : aefw_sin Rops x = efw_sin x /\ afw_sin Rops x = fw_sin x.
+Proof. split; reflexivity. Qed.
+
+Lemma inst_sin_bw (x : R) (y : R) (gy : R) : aebw_sin Rops x y gy = ebw_sin x y gy /\ abw_sin Rops x y gy = bw_sin x y gy.
+Proof. split; reflexivity. Qed.
+
+Lemma inst_softplus_fw (x : R) : aefw_softplus Rops x = efw_softplus x /\ afw_softplus Rops x = fw_softplus x.
+Proof. split; reflexivity. Qed.
+
+Lemma inst_softplus_bw (x : R) (y : R) (gy : R) : aebw_softplus Rops x y gy = ebw_softplus x y gy /\ abw_softplus Rops x y gy = bw_softplus x y gy.
+Proof. split; reflexivity. Qed.
+
+Lemma inst_sqrt_fw (x : R) : aefw_sqrt Rops x = efw_sqrt x /\ afw_sqrt Rops x = fw_sqrt x.
+Proof. split; reflexivity. Qed.
+
+Lemma inst_sqrt_bw (x : R) (y : R) (gy : R) : aebw_sqrt Rops x y gy = ebw_sqrt x y gy /\ abw_sqrt Rops x y gy = bw_sqrt x y gy.
+Proof. split; reflexivity. Qed.
+
+Lemma inst_subtract_const_r_fw (x : R) (k : R) : aefw_subtract_const_r Rops x k = efw_subtract_const_r x k /\ afw_subtract_const_r Rops x k = fw_subtract_const_r x k.
+Proof. split; reflexivity. Qed.
+
+Lemma inst_subtract_const_r_bw (x : R) (y : R) (gy : R) (k : R) : aebw_subtract_const_r Rops x y gy k = ebw_subtract_const_r x y gy k /\ abw_subtract_const_r Rops x y gy k = bw_subtract_const_r x y gy k.
+Proof. split; reflexivity. Qed.
+
+Lemma inst_subtract_const_l_fw (x : R) (k : R) : aefw_subtract_const_l Rops x k = efw_subtract_const_l x k /\ afw_subtract_const_l Rops x k = fw_subtract_const_l x k.
+Proof. split; reflexivity. Qed.
+
+Lemma inst_subtract_const_l_bw (x : R) (y : R) (gy : R) (k : R) : aebw_subtract_const_l Rops x y gy k = ebw_subtract_const_l x y gy k /\ abw_subtract_const_l Rops x y gy k = bw_subtract_const_l x y gy k.
+Proof. split; reflexivity. Qed.
+
+Lemma inst_subtract_scalar_r_fw (x : R) (k : R) : aefw_subtract_scalar_r Rops x k = efw_subtract_scalar_r x k /\ afw_subtract_scalar_r Rops x k = fw_subtract_scalar_r x k.
+Proof. split; reflexivity. Qed.
+
+Lemma inst_subtract_scalar_l_fw (x : R) (k : R) : aefw_subtract_scalar_l Rops x k = efw_subtract_scalar_l x k /\ afw_subtract_scalar_l Rops x k = fw_subtract_scalar_l x k.
+Proof. split; reflexivity. Qed.
+
+Lemma inst_subtract_fw (a : R) (b : R) : aefw_subtract Rops a b = efw_subtract a b /\ afw_subtract Rops a b = fw_subtract a b.
+Proof. split; reflexivity. Qed.
+
+Lemma inst_subtract_a_bw (a : R) (b : R) (y : R) (gy : R) : aebw_subtract_a Rops a b y gy = ebw_subtract_a a b y gy /\ abw_subtract_a Rops a b y gy = bw_subtract_a a b y gy.
+Proof. split; reflexivity. Qed.
+
+Lemma inst_subtract_b_bw (a : R) (b : R) (y : R) (gy : R) : aebw_subtract_b Rops a b y gy = ebw_subtract_b a b y gy /\ abw_subtract_b Rops a b y gy = bw_subtract_b a b y gy.
+Proof. split; reflexivity. Qed.
+
+Lemma inst_tan_fw (x : R) : aefw_tan Rops x = efw_tan x /\ afw_tan Rops x = fw_tan x.
+Proof. split; reflexivity. Qed.
+
+Lemma inst_tan_bw (x : R) (y : R) (gy : R) : aebw_tan Rops x y gy = ebw_tan x y gy /\ abw_tan Rops x y gy = bw_tan x y gy.
+Proof. split; reflexivity. Qed.
+
+Lemma inst_tanh_fw (x : R) : aefw_tanh Rops x = efw_tanh x /\ afw_tanh Rops x = fw_tanh x.
+Proof. split; reflexivity. Qed.
+
+Lemma inst_tanh_bw (x : R) (y : R) (gy : R) : aebw_tanh Rops x y gy = ebw_tanh x y gy /\ abw_tanh Rops x y gy = bw_tanh x y gy.
+Proof. split; reflexivity. Qed.
+
+Lemma abs_fw_same (x : R) : efw_abs x = fw_abs x.
+Proof. destruct (inst_abs_fw x) as [<- <-]. exact (abs_fw_same_abs Rops x). Qed.
+
+Lemma abs_bw_same (x : R) (y : R) (gy : R) : ebw_abs x y gy = bw_abs x y gy.
+Proof. destruct (inst_abs_bw x y gy) as [<- <-]. exact (abs_bw_same_abs Rops x y gy). Qed.
+
+Lemma add_const_fw_same (x : R) (k : R) : efw_add_const x k = fw_add_const x k.
+Proof. destruct (inst_add_const_fw x k) as [<- <-]. exact (add_const_fw_same_abs Rops x k). Qed.
+
+Lemma add_const_bw_same (x : R) (y : R) (gy : R) (k : R) : ebw_add_const x y gy k = bw_add_const x y gy k.
+Proof. destruct (inst_add_const_bw x y gy k) as [<- <-]. exact (add_const_bw_same_abs Rops x y gy k). Qed.
+
+Lemma add_scalar_fw_same (x : R) (k : R) : efw_add_scalar x k = fw_add_scalar x k.
+Proof. destruct (inst_add_scalar_fw x k) as [<- <-]. exact (add_scalar_fw_same_abs Rops x k). Qed.
+
+Lemma add_fw_same (a : R) (b : R) : efw_add a b = fw_add a b.
+Proof. destruct (inst_add_fw a b) as [<- <-]. exact (add_fw_same_abs Rops a b). Qed.
+
+Lemma add_a_bw_same (a : R) (b : R) (y : R) (gy : R) : ebw_add_a a b y gy = bw_add_a a b y gy.
+Proof. destruct (inst_add_a_bw a b y gy) as [<- <-]. exact (add_a_bw_same_abs Rops a b y gy). Qed.
+
+Lemma add_b_bw_same (a : R) (b : R) (y : R) (gy : R) : ebw_add_b a b y gy = bw_add_b a b y gy.
+Proof. destruct (inst_add_b_bw a b y gy) as [<- <-]. exact (add_b_bw_same_abs Rops a b y gy). Qed.
+
+Lemma cos_fw_same (x : R) : efw_cos x = fw_cos x.
+Proof. destruct (inst_cos_fw x) as [<- <-]. exact (cos_fw_same_abs Rops x). Qed.
+
+Lemma cos_bw_same (x : R) (y : R) (gy : R) : ebw_cos x y gy = bw_cos x y gy.
+Proof. destruct (inst_cos_bw x y gy) as [<- <-]. exact (cos_bw_same_abs Rops x y gy). Qed.
+
+Lemma divide_const_r_fw_same (x : R) (k : R) : efw_divide_const_r x k = fw_divide_const_r x k.
+Proof. destruct (inst_divide_const_r_fw x k) as [<- <-]. exact (divide_const_r_fw_same_abs Rops x k). Qed.
+
+Lemma divide_const_r_bw_same (x : R) (y : R) (gy : R) (k : R) : ebw_divide_const_r x y gy k = bw_divide_const_r x y gy k.
+Proof. destruct (inst_divide_const_r_bw x y gy k) as [<- <-]. exact (divide_const_r_bw_same_abs Rops x y gy k). Qed.
+
+Lemma divide_const_l_fw_same (x : R) (k : R) : efw_divide_const_l x k = fw_divide_const_l x k.
+Proof. destruct (inst_divide_const_l_fw x k) as [<- <-]. exact (divide_const_l_fw_same_abs Rops x k). Qed.
+
+Lemma divide_const_l_bw_same (x : R) (y : R) (gy : R) (k : R) : ebw_divide_const_l x y gy k = bw_divide_const_l x y gy k.
+Proof. destruct (inst_divide_const_l_bw x y gy k) as [<- <-]. exact (divide_const_l_bw_same_abs Rops x y gy k). Qed.
+
+Lemma divide_scalar_r_fw_same (x : R) (k : R) : efw_divide_scalar_r x k = fw_divide_scalar_r x k.
+Proof. destruct (inst_divide_scalar_r_fw x k) as [<- <-]. exact (divide_scalar_r_fw_same_abs Rops x k). Qed.
+
+Lemma divide_scalar_l_fw_same (x : R) (k : R) : efw_divide_scalar_l x k = fw_divide_scalar_l x k.
+Proof. destruct (inst_divide_scalar_l_fw x k) as [<- <-]. exact (divide_scalar_l_fw_same_abs Rops x k). Qed.
+
+Lemma divide_fw_same (a : R) (b : R) : efw_divide a b = fw_divide a b.
+Proof. destruct (inst_divide_fw a b) as [<- <-]. exact (divide_fw_same_abs Rops a b). Qed.
+
+Lemma divide_a_bw_same (a : R) (b : R) (y : R) (gy : R) : ebw_divide_a a b y gy = bw_divide_a a b y gy.
+Proof. destruct (inst_divide_a_bw a b y gy) as [<- <-]. exact (divide_a_bw_same_abs Rops a b y gy). Qed.
+
+Lemma divide_b_bw_same (a : R) (b : R) (y : R) (gy : R) : ebw_divide_b a b y gy = bw_divide_b a b y gy.
+Proof. destruct (inst_divide_b_bw a b y gy) as [<- <-]. exact (divide_b_bw_same_abs Rops Rdiv_mul_numerator a b y gy). Qed.
+
+Lemma elu_fw_same (x : R) (k : R) : efw_elu x k = fw_elu x k.
+Proof. destruct (inst_elu_fw x k) as [<- <-]. exact (elu_fw_same_abs Rops exp_0 x k). Qed.
+
+Lemma elu_bw_same (x : R) (y : R) (gy : R) (k : R) : ebw_elu x y gy k = bw_elu x y gy k.
+Proof. destruct (inst_elu_bw x y gy k) as [<- <-]. exact (elu_bw_same_abs Rops x y gy k). Qed.
+
+Lemma exp_fw_same (x : R) : efw_exp x = fw_exp x.
+Proof. destruct (inst_exp_fw x) as [<- <-]. exact (exp_fw_same_abs Rops x). Qed.
+
+Lemma exp_bw_same (x : R) (y : R) (gy : R) : ebw_exp x y gy = bw_exp x y gy.
+Proof. destruct (inst_exp_bw x y gy) as [<- <-]. exact (exp_bw_same_abs Rops x y gy). Qed.
+
+Lemma log_fw_same (x : R) : efw_log x = fw_log x.
+Proof. destruct (inst_log_fw x) as [<- <-]. exact (log_fw_same_abs Rops x). Qed.
+
+Lemma log_bw_same (x : R) (y : R) (gy : R) : ebw_log x y gy = bw_log x y gy.
+Proof. destruct (inst_log_bw x y gy) as [<- <-]. exact (log_bw_same_abs Rops x y gy). Qed.
+
+Lemma multiply_const_fw_same (x : R) (k : R) : efw_multiply_const x k = fw_multiply_const x k.
+Proof. destruct (inst_multiply_const_fw x k) as [<- <-]. exact (multiply_const_fw_same_abs Rops x k). Qed.
+
+Lemma multiply_const_bw_same (x : R) (y : R) (gy : R) (k : R) : ebw_multiply_const x y gy k = bw_multiply_const x y gy k.
+Proof. destruct (inst_multiply_const_bw x y gy k) as [<- <-]. exact (multiply_const_bw_same_abs Rops x y gy k). Qed.
+
+Lemma multiply_scalar_fw_same (x : R) (k : R) : efw_multiply_scalar x k = fw_multiply_scalar x k.
+Proof. destruct (inst_multiply_scalar_fw x k) as [<- <-]. exact (multiply_scalar_fw_same_abs Rops x k). Qed.
+
+Lemma multiply_fw_same (a : R) (b : R) : efw_multiply a b = fw_multiply a b.
+Proof. destruct (inst_multiply_fw a b) as [<- <-]. exact (multiply_fw_same_abs Rops a b). Qed.
+
+Lemma multiply_a_bw_same (a : R) (b : R) (y : R) (gy : R) : ebw_multiply_a a b y gy = bw_multiply_a a b y gy.
+Proof. destruct (inst_multiply_a_bw a b y gy) as [<- <-]. exact (multiply_a_bw_same_abs Rops a b y gy). Qed.
+
+Lemma multiply_b_bw_same (a : R) (b : R) (y : R) (gy : R) : ebw_multiply_b a b y gy = bw_multiply_b a b y gy.
+Proof. destruct (inst_multiply_b_bw a b y gy) as [<- <-]. exact (multiply_b_bw_same_abs Rops a b y gy). Qed.
+
+Lemma negate_fw_same (x : R) : efw_negate x = fw_negate x.
+Proof. destruct (inst_negate_fw x) as [<- <-]. exact (negate_fw_same_abs Rops x). Qed.
+
+Lemma pow_const_r_fw_same (x : R) (k : R) : efw_pow_const_r x k = fw_pow_const_r x k.
+Proof. destruct (inst_pow_const_r_fw x k) as [<- <-]. exact (pow_const_r_fw_same_abs Rops x k). Qed.
+
+Lemma pow_const_r_bw_same (x : R) (y : R) (gy : R) (k : R) : ebw_pow_const_r x y gy k = bw_pow_const_r x y gy k.
+Proof. destruct (inst_pow_const_r_bw x y gy k) as [<- <-]. exact (pow_const_r_bw_same_abs Rops x y gy k). Qed.
+
+Lemma pow_const_l_fw_same (x : R) (k : R) : efw_pow_const_l x k = fw_pow_const_l x k.
+Proof. destruct (inst_pow_const_l_fw x k) as [<- <-]. exact (pow_const_l_fw_same_abs Rops x k). Qed.
+
+Lemma pow_const_l_bw_same (x : R) (y : R) (gy : R) (k : R) : ebw_pow_const_l x y gy k = bw_pow_const_l x y gy k.
+Proof. destruct (inst_pow_const_l_bw x y gy k) as [<- <-]. exact (pow_const_l_bw_same_abs Rops x y gy k). Qed.
+
+Lemma pow_scalar_r_fw_same (x : R) (k : R) : efw_pow_scalar_r x k = fw_pow_scalar_r x k.
+Proof. destruct (inst_pow_scalar_r_fw x k) as [<- <-]. exact (pow_scalar_r_fw_same_abs Rops x k). Qed.
+
+Lemma pow_scalar_l_fw_same (x : R) (k : R) : efw_pow_scalar_l x k = fw_pow_scalar_l x k.
+Proof. destruct (inst_pow_scalar_l_fw x k) as [<- <-]. exact (pow_scalar_l_fw_same_abs Rops x k). Qed.
+
+Lemma pow_fw_same (a : R) (b : R) : efw_pow a b = fw_pow a b.
+Proof. destruct (inst_pow_fw a b) as [<- <-]. exact (pow_fw_same_abs Rops a b). Qed.
+
+Lemma pow_a_bw_same (a : R) (b : R) (y : R) (gy : R) : ebw_pow_a a b y gy = bw_pow_a a b y gy.
+Proof. destruct (inst_pow_a_bw a b y gy) as [<- <-]. exact (pow_a_bw_same_abs Rops a b y gy). Qed.
+
+Lemma pow_b_bw_same (a : R) (b : R) (y : R) (gy : R) : ebw_pow_b a b y gy = bw_pow_b a b y gy.
+Proof. destruct (inst_pow_b_bw a b y gy) as [<- <-]. exact (pow_b_bw_same_abs Rops a b y gy). Qed.
+
+Lemma pown_fw_same (x : R) (k : Z) : efw_pown x k = fw_pown x k.
+Proof. destruct (inst_pown_fw x k) as [<- <-]. exact (pown_fw_same_abs Rops x k). Qed.
+
 Lemma pown_bw_same (x : R) (y : R) (gy : R) (k : Z) : ebw_pown x y gy k = bw_pown x y gy k.
-Proof. same. Qed.
+Proof. destruct (inst_pown_bw x y gy k) as [<- <-]. exact (pown_bw_same_abs Rops x y gy k). Qed.
 
 Lemma prelu_fw_same (x : R) (k : R) : efw_prelu x k = fw_prelu x k.
-Proof. same. Qed.
+Proof. destruct (inst_prelu_fw x k) as [<- <-]. exact (prelu_fw_same_abs Rops x k). Qed.
 
 Lemma prelu_bw_same (x : R) (y : R) (gy : R) (k : R) : ebw_prelu x y gy k = bw_prelu x y gy k.
-Proof. same. Qed.
+Proof. destruct (inst_prelu_bw x y gy k) as [<- <-]. exact (prelu_bw_same_abs Rops x y gy k). Qed.
 
 Lemma sigmoid_fw_same (x : R) : efw_sigmoid x = fw_sigmoid x.
-Proof. first [ same | same_stable ]. Qed.
+Proof. destruct (inst_sigmoid_fw x) as [<- <-]. exact (sigmoid_fw_same_abs Rops x). Qed.
 
 Lemma sigmoid_bw_same (x : R) (y : R) (gy : R) : ebw_sigmoid x y gy = bw_sigmoid x y gy.
-Proof. first [ same | same_stable ]. Qed.
+Proof. destruct (inst_sigmoid_bw x y gy) as [<- <-]. exact (sigmoid_bw_same_abs Rops x y gy). Qed.
 
 Lemma sin_fw_same (x : R) : efw_sin x = fw_sin x.
-Proof. same. Qed.
+Proof. destruct (inst_sin_fw x) as [<- <-]. exact (sin_fw_same_abs Rops x). Qed.
 
 Lemma sin_bw_same (x : R) (y : R) (gy : R) : ebw_sin x y gy = bw_sin x y gy.
-Proof. same. Qed.
+Proof. destruct (inst_sin_bw x y gy) as [<- <-]. exact (sin_bw_same_abs Rops x y gy). Qed.
 
 Lemma softplus_fw_same (x : R) : efw_softplus x = fw_softplus x.
-Proof. first [ same | same_stable ]. Qed.
+Proof. destruct (inst_softplus_fw x) as [<- <-]. exact (softplus_fw_same_abs Rops x). Qed.
 
 Lemma softplus_bw_same (x : R) (y : R) (gy : R) : ebw_softplus x y gy = bw_softplus x y gy.
-Proof. first [ same | same_stable ]. Qed.
+Proof. destruct (inst_softplus_bw x y gy) as [<- <-]. exact (softplus_bw_same_abs Rops x y gy). Qed.
 
 Lemma sqrt_fw_same (x : R) : efw_sqrt x = fw_sqrt x.
-Proof. same. Qed.
+Proof. destruct (inst_sqrt_fw x) as [<- <-]. exact (sqrt_fw_same_abs Rops x). Qed.
 
 Lemma sqrt_bw_same (x : R) (y : R) (gy : R) : ebw_sqrt x y gy = bw_sqrt x y gy.
-Proof. same. Qed.
+Proof. destruct (inst_sqrt_bw x y gy) as [<- <-]. exact (sqrt_bw_same_abs Rops x y gy). Qed.
 
 Lemma subtract_const_r_fw_same (x : R) (k : R) : efw_subtract_const_r x k = fw_subtract_const_r x k.
-Proof. same. Qed.
+Proof. destruct (inst_subtract_const_r_fw x k) as [<- <-]. exact (subtract_const_r_fw_same_abs Rops x k). Qed.
 
 Lemma subtract_const_r_bw_same (x : R) (y : R) (gy : R) (k : R) : ebw_subtract_const_r x y gy k = bw_subtract_const_r x y gy k.
-Proof. same. Qed.
+Proof. destruct (inst_subtract_const_r_bw x y gy k) as [<- <-]. exact (subtract_const_r_bw_same_abs Rops x y gy k). Qed.
 
 Lemma subtract_const_l_fw_same (x : R) (k : R) : efw_subtract_const_l x k = fw_subtract_const_l x k.
-Proof. same. Qed.
+Proof. destruct (inst_subtract_const_l_fw x k) as [<- <-]. exact (subtract_const_l_fw_same_abs Rops x k). Qed.
 
 Lemma subtract_const_l_bw_same (x : R) (y : R) (gy : R) (k : R) : ebw_subtract_const_l x y gy k = bw_subtract_const_l x y gy k.
-Proof. same. Qed.
+Proof. destruct (inst_subtract_const_l_bw x y gy k) as [<- <-]. exact (subtract_const_l_bw_same_abs Rops x y gy k). Qed.
 
 Lemma subtract_scalar_r_fw_same (x : R) (k : R) : efw_subtract_scalar_r x k = fw_subtract_scalar_r x k.
-Proof. same. Qed.
+Proof. destruct (inst_subtract_scalar_r_fw x k) as [<- <-]. exact (subtract_scalar_r_fw_same_abs Rops x k). Qed.
 
 Lemma subtract_scalar_l_fw_same (x : R) (k : R) : efw_subtract_scalar_l x k = fw_subtract_scalar_l x k.
-Proof. same. Qed.
+Proof. destruct (inst_subtract_scalar_l_fw x k) as [<- <-]. exact (subtract_scalar_l_fw_same_abs Rops x k). Qed.
 
 Lemma subtract_fw_same (a : R) (b : R) : efw_subtract a b = fw_subtract a b.
-Proof. same. Qed.
+Proof. destruct (inst_subtract_fw a b) as [<- <-]. exact (subtract_fw_same_abs Rops a b). Qed.
 
 Lemma subtract_a_bw_same (a : R) (b : R) (y : R) (gy : R) : ebw_subtract_a a b y gy = bw_subtract_a a b y gy.
-Proof. same. Qed.
+Proof. destruct (inst_subtract_a_bw a b y gy) as [<- <-]. exact (subtract_a_bw_same_abs Rops a b y gy). Qed.
 
 Lemma subtract_b_bw_same (a : R) (b : R) (y : R) (gy : R) : ebw_subtract_b a b y gy = bw_subtract_b a b y gy.
-Proof. same. Qed.
+Proof. destruct (inst_subtract_b_bw a b y gy) as [<- <-]. exact (subtract_b_bw_same_abs Rops a b y gy). Qed.
 
 Lemma tan_fw_same (x : R) : efw_tan x = fw_tan x.
-Proof. same. Qed.
+Proof. destruct (inst_tan_fw x) as [<- <-]. exact (tan_fw_same_abs Rops x). Qed.
 
 Lemma tan_bw_same (x : R) (y : R) (gy : R) : ebw_tan x y gy = bw_tan x y gy.
-Proof. same. Qed.
+Proof. destruct (inst_tan_bw x y gy) as [<- <-]. exact (tan_bw_same_abs Rops x y gy). Qed.
 
 Lemma tanh_fw_same (x : R) : efw_tanh x = fw_tanh x.
-Proof. same. Qed.
+Proof. destruct (inst_tanh_fw x) as [<- <-]. exact (tanh_fw_same_abs Rops x). Qed.
 
 Lemma tanh_bw_same (x : R) (y : R) (gy : R) : ebw_tanh x y gy = bw_tanh x y gy.
-Proof. same. Qed.
+Proof. destruct (inst_tanh_bw x y gy) as [<- <-]. exact (tanh_bw_same_abs Rops x y gy). Qed.
 
 (* ---------------------------------------------------------------- the kinks: both backends agree there too *)
 
@@ -320,17 +727,160 @@ Proof. repeat split; unfold efw_prelu, fw_prelu, ebw_prelu, bw_prelu; same_core.
 
 Lemma elu_at_kink y gy k :
   efw_elu 0 k = 0 /\ fw_elu 0 k = 0 /\ ebw_elu 0 y gy k = (y + k) * gy /\ bw_elu 0 y gy k = (y + k) * gy.
-Proof. repeat split; unfold efw_elu, fw_elu, ebw_elu, bw_elu; same_core. Qed.
+Proof.
+  repeat split; unfold efw_elu, fw_elu, ebw_elu, bw_elu, b01; split_cmps; try (exfalso; lra);
+    rewrite ?Rmult_0_r, ?Rmult_1_r, ?exp_0; ring.
+Qed.
 
 Lemma abs_at_kink y gy : ebw_abs 0 y gy = 0 /\ bw_abs 0 y gy = 0.
 Proof. split; unfold ebw_abs, bw_abs; same_core. Qed.
 
-(* ---------------------------------------------------------------- summary table *)
+(* ---------------------------------------------------------------- summary tables *)
 
 Record proved := Proved { pname : string; pstmt : Prop; pproof : pstmt }.
 
-(* the Naive name of the kernel, the statement, its proof *)
+(* the Naive name of the kernel, the ABSTRACT statement, its proof *)
 Definition elem_table : list proved := [
+  Proved "fw_abs" (forall (o : ops), forall (x : R), aefw_abs o x = afw_abs o x) abs_fw_same_abs;
+  Proved "bw_abs" (forall (o : ops), forall (x : R) (y : R) (gy : R), aebw_abs o x y gy = abw_abs o x y gy) abs_bw_same_abs;
+  Proved "fw_add_const" (forall (o : ops), forall (x : R) (k : R), aefw_add_const o x k = afw_add_const o x k) add_const_fw_same_abs;
+  Proved "bw_add_const" (forall (o : ops), forall (x : R) (y : R) (gy : R) (k : R), aebw_add_const o x y gy k = abw_add_const o x y gy k) add_const_bw_same_abs;
+  Proved "fw_add_scalar" (forall (o : ops), forall (x : R) (k : R), aefw_add_scalar o x k = afw_add_scalar o x k) add_scalar_fw_same_abs;
+  Proved "fw_add" (forall (o : ops), forall (a : R) (b : R), aefw_add o a b = afw_add o a b) add_fw_same_abs;
+  Proved "bw_add_a" (forall (o : ops), forall (a : R) (b : R) (y : R) (gy : R), aebw_add_a o a b y gy = abw_add_a o a b y gy) add_a_bw_same_abs;
+  Proved "bw_add_b" (forall (o : ops), forall (a : R) (b : R) (y : R) (gy : R), aebw_add_b o a b y gy = abw_add_b o a b y gy) add_b_bw_same_abs;
+  Proved "fw_cos" (forall (o : ops), forall (x : R), aefw_cos o x = afw_cos o x) cos_fw_same_abs;
+  Proved "bw_cos" (forall (o : ops), forall (x : R) (y : R) (gy : R), aebw_cos o x y gy = abw_cos o x y gy) cos_bw_same_abs;
+  Proved "fw_divide_const_r" (forall (o : ops), forall (x : R) (k : R), aefw_divide_const_r o x k = afw_divide_const_r o x k) divide_const_r_fw_same_abs;
+  Proved "bw_divide_const_r" (forall (o : ops), forall (x : R) (y : R) (gy : R) (k : R), aebw_divide_const_r o x y gy k = abw_divide_const_r o x y gy k) divide_const_r_bw_same_abs;
+  Proved "fw_divide_const_l" (forall (o : ops), forall (x : R) (k : R), aefw_divide_const_l o x k = afw_divide_const_l o x k) divide_const_l_fw_same_abs;
+  Proved "bw_divide_const_l" (forall (o : ops), forall (x : R) (y : R) (gy : R) (k : R), aebw_divide_const_l o x y gy k = abw_divide_const_l o x y gy k) divide_const_l_bw_same_abs;
+  Proved "fw_divide_scalar_r" (forall (o : ops), forall (x : R) (k : R), aefw_divide_scalar_r o x k = afw_divide_scalar_r o x k) divide_scalar_r_fw_same_abs;
+  Proved "fw_divide_scalar_l" (forall (o : ops), forall (x : R) (k : R), aefw_divide_scalar_l o x k = afw_divide_scalar_l o x k) divide_scalar_l_fw_same_abs;
+  Proved "fw_divide" (forall (o : ops), forall (a : R) (b : R), aefw_divide o a b = afw_divide o a b) divide_fw_same_abs;
+  Proved "bw_divide_a" (forall (o : ops), forall (a : R) (b : R) (y : R) (gy : R), aebw_divide_a o a b y gy = abw_divide_a o a b y gy) divide_a_bw_same_abs;
+  Proved "bw_divide_b" (forall (o : ops), (forall p q r, op_div o (p * r) q = op_div o p q * r) -> forall (a : R) (b : R) (y : R) (gy : R), aebw_divide_b o a b y gy = abw_divide_b o a b y gy) divide_b_bw_same_abs;
+  Proved "fw_elu" (forall (o : ops), op_exp o 0 = 1 -> forall (x : R) (k : R), aefw_elu o x k = afw_elu o x k) elu_fw_same_abs;
+  Proved "bw_elu" (forall (o : ops), forall (x : R) (y : R) (gy : R) (k : R), aebw_elu o x y gy k = abw_elu o x y gy k) elu_bw_same_abs;
+  Proved "fw_exp" (forall (o : ops), forall (x : R), aefw_exp o x = afw_exp o x) exp_fw_same_abs;
+  Proved "bw_exp" (forall (o : ops), forall (x : R) (y : R) (gy : R), aebw_exp o x y gy = abw_exp o x y gy) exp_bw_same_abs;
+  Proved "fw_log" (forall (o : ops), forall (x : R), aefw_log o x = afw_log o x) log_fw_same_abs;
+  Proved "bw_log" (forall (o : ops), forall (x : R) (y : R) (gy : R), aebw_log o x y gy = abw_log o x y gy) log_bw_same_abs;
+  Proved "fw_multiply_const" (forall (o : ops), forall (x : R) (k : R), aefw_multiply_const o x k = afw_multiply_const o x k) multiply_const_fw_same_abs;
+  Proved "bw_multiply_const" (forall (o : ops), forall (x : R) (y : R) (gy : R) (k : R), aebw_multiply_const o x y gy k = abw_multiply_const o x y gy k) multiply_const_bw_same_abs;
+  Proved "fw_multiply_scalar" (forall (o : ops), forall (x : R) (k : R), aefw_multiply_scalar o x k = afw_multiply_scalar o x k) multiply_scalar_fw_same_abs;
+  Proved "fw_multiply" (forall (o : ops), forall (a : R) (b : R), aefw_multiply o a b = afw_multiply o a b) multiply_fw_same_abs;
+  Proved "bw_multiply_a" (forall (o : ops), forall (a : R) (b : R) (y : R) (gy : R), aebw_multiply_a o a b y gy = abw_multiply_a o a b y gy) multiply_a_bw_same_abs;
+  Proved "bw_multiply_b" (forall (o : ops), forall (a : R) (b : R) (y : R) (gy : R), aebw_multiply_b o a b y gy = abw_multiply_b o a b y gy) multiply_b_bw_same_abs;
+  Proved "fw_negate" (forall (o : ops), forall (x : R), aefw_negate o x = afw_negate o x) negate_fw_same_abs;
+  Proved "fw_pow_const_r" (forall (o : ops), forall (x : R) (k : R), aefw_pow_const_r o x k = afw_pow_const_r o x k) pow_const_r_fw_same_abs;
+  Proved "bw_pow_const_r" (forall (o : ops), forall (x : R) (y : R) (gy : R) (k : R), aebw_pow_const_r o x y gy k = abw_pow_const_r o x y gy k) pow_const_r_bw_same_abs;
+  Proved "fw_pow_const_l" (forall (o : ops), forall (x : R) (k : R), aefw_pow_const_l o x k = afw_pow_const_l o x k) pow_const_l_fw_same_abs;
+  Proved "bw_pow_const_l" (forall (o : ops), forall (x : R) (y : R) (gy : R) (k : R), aebw_pow_const_l o x y gy k = abw_pow_const_l o x y gy k) pow_const_l_bw_same_abs;
+  Proved "fw_pow_scalar_r" (forall (o : ops), forall (x : R) (k : R), aefw_pow_scalar_r o x k = afw_pow_scalar_r o x k) pow_scalar_r_fw_same_abs;
+  Proved "fw_pow_scalar_l" (forall (o : ops), forall (x : R) (k : R), aefw_pow_scalar_l o x k = afw_pow_scalar_l o x k) pow_scalar_l_fw_same_abs;
+  Proved "fw_pow" (forall (o : ops), forall (a : R) (b : R), aefw_pow o a b = afw_pow o a b) pow_fw_same_abs;
+  Proved "bw_pow_a" (forall (o : ops), forall (a : R) (b : R) (y : R) (gy : R), aebw_pow_a o a b y gy = abw_pow_a o a b y gy) pow_a_bw_same_abs;
+  Proved "bw_pow_b" (forall (o : ops), forall (a : R) (b : R) (y : R) (gy : R), aebw_pow_b o a b y gy = abw_pow_b o a b y gy) pow_b_bw_same_abs;
+  Proved "fw_pown" (forall (o : ops), forall (x : R) (k : Z), aefw_pown o x k = afw_pown o x k) pown_fw_same_abs;
+  Proved "bw_pown" (forall (o : ops), forall (x : R) (y : R) (gy : R) (k : Z), aebw_pown o x y gy k = abw_pown o x y gy k) pown_bw_same_abs;
+  Proved "fw_prelu" (forall (o : ops), forall (x : R) (k : R), aefw_prelu o x k = afw_prelu o x k) prelu_fw_same_abs;
+  Proved "bw_prelu" (forall (o : ops), forall (x : R) (y : R) (gy : R) (k : R), aebw_prelu o x y gy k = abw_prelu o x y gy k) prelu_bw_same_abs;
+  Proved "fw_sigmoid" (forall (o : ops), forall (x : R), aefw_sigmoid o x = afw_sigmoid o x) sigmoid_fw_same_abs;
+  Proved "bw_sigmoid" (forall (o : ops), forall (x : R) (y : R) (gy : R), aebw_sigmoid o x y gy = abw_sigmoid o x y gy) sigmoid_bw_same_abs;
+  Proved "fw_sin" (forall (o : ops), forall (x : R), aefw_sin o x = afw_sin o x) sin_fw_same_abs;
+  Proved "bw_sin" (forall (o : ops), forall (x : R) (y : R) (gy : R), aebw_sin o x y gy = abw_sin o x y gy) sin_bw_same_abs;
+  Proved "fw_softplus" (forall (o : ops), forall (x : R), aefw_softplus o x = afw_softplus o x) softplus_fw_same_abs;
+  Proved "bw_softplus" (forall (o : ops), forall (x : R) (y : R) (gy : R), aebw_softplus o x y gy = abw_softplus o x y gy) softplus_bw_same_abs;
+  Proved "fw_sqrt" (forall (o : ops), forall (x : R), aefw_sqrt o x = afw_sqrt o x) sqrt_fw_same_abs;
+  Proved "bw_sqrt" (forall (o : ops), forall (x : R) (y : R) (gy : R), aebw_sqrt o x y gy = abw_sqrt o x y gy) sqrt_bw_same_abs;
+  Proved "fw_subtract_const_r" (forall (o : ops), forall (x : R) (k : R), aefw_subtract_const_r o x k = afw_subtract_const_r o x k) subtract_const_r_fw_same_abs;
+  Proved "bw_subtract_const_r" (forall (o : ops), forall (x : R) (y : R) (gy : R) (k : R), aebw_subtract_const_r o x y gy k = abw_subtract_const_r o x y gy k) subtract_const_r_bw_same_abs;
+  Proved "fw_subtract_const_l" (forall (o : ops), forall (x : R) (k : R), aefw_subtract_const_l o x k = afw_subtract_const_l o x k) subtract_const_l_fw_same_abs;
+  Proved "bw_subtract_const_l" (forall (o : ops), forall (x : R) (y : R) (gy : R) (k : R), aebw_subtract_const_l o x y gy k = abw_subtract_const_l o x y gy k) subtract_const_l_bw_same_abs;
+  Proved "fw_subtract_scalar_r" (forall (o : ops), forall (x : R) (k : R), aefw_subtract_scalar_r o x k = afw_subtract_scalar_r o x k) subtract_scalar_r_fw_same_abs;
+  Proved "fw_subtract_scalar_l" (forall (o : ops), forall (x : R) (k : R), aefw_subtract_scalar_l o x k = afw_subtract_scalar_l o x k) subtract_scalar_l_fw_same_abs;
+  Proved "fw_subtract" (forall (o : ops), forall (a : R) (b : R), aefw_subtract o a b = afw_subtract o a b) subtract_fw_same_abs;
+  Proved "bw_subtract_a" (forall (o : ops), forall (a : R) (b : R) (y : R) (gy : R), aebw_subtract_a o a b y gy = abw_subtract_a o a b y gy) subtract_a_bw_same_abs;
+  Proved "bw_subtract_b" (forall (o : ops), forall (a : R) (b : R) (y : R) (gy : R), aebw_subtract_b o a b y gy = abw_subtract_b o a b y gy) subtract_b_bw_same_abs;
+  Proved "fw_tan" (forall (o : ops), forall (x : R), aefw_tan o x = afw_tan o x) tan_fw_same_abs;
+  Proved "bw_tan" (forall (o : ops), forall (x : R) (y : R) (gy : R), aebw_tan o x y gy = abw_tan o x y gy) tan_bw_same_abs;
+  Proved "fw_tanh" (forall (o : ops), forall (x : R), aefw_tanh o x = afw_tanh o x) tanh_fw_same_abs;
+  Proved "bw_tanh" (forall (o : ops), forall (x : R) (y : R) (gy : R), aebw_tanh o x y gy = abw_tanh o x y gy) tanh_bw_same_abs
+].
+
+(* the Naive name, "both abstract trees at Rops are the concrete definitions", by reflexivity *)
+Definition inst_table : list proved := [
+  Proved "fw_abs" (forall (x : R), aefw_abs Rops x = efw_abs x /\ afw_abs Rops x = fw_abs x) inst_abs_fw;
+  Proved "bw_abs" (forall (x : R) (y : R) (gy : R), aebw_abs Rops x y gy = ebw_abs x y gy /\ abw_abs Rops x y gy = bw_abs x y gy) inst_abs_bw;
+  Proved "fw_add_const" (forall (x : R) (k : R), aefw_add_const Rops x k = efw_add_const x k /\ afw_add_const Rops x k = fw_add_const x k) inst_add_const_fw;
+  Proved "bw_add_const" (forall (x : R) (y : R) (gy : R) (k : R), aebw_add_const Rops x y gy k = ebw_add_const x y gy k /\ abw_add_const Rops x y gy k = bw_add_const x y gy k) inst_add_const_bw;
+  Proved "fw_add_scalar" (forall (x : R) (k : R), aefw_add_scalar Rops x k = efw_add_scalar x k /\ afw_add_scalar Rops x k = fw_add_scalar x k) inst_add_scalar_fw;
+  Proved "fw_add" (forall (a : R) (b : R), aefw_add Rops a b = efw_add a b /\ afw_add Rops a b = fw_add a b) inst_add_fw;
+  Proved "bw_add_a" (forall (a : R) (b : R) (y : R) (gy : R), aebw_add_a Rops a b y gy = ebw_add_a a b y gy /\ abw_add_a Rops a b y gy = bw_add_a a b y gy) inst_add_a_bw;
+  Proved "bw_add_b" (forall (a : R) (b : R) (y : R) (gy : R), aebw_add_b Rops a b y gy = ebw_add_b a b y gy /\ abw_add_b Rops a b y gy = bw_add_b a b y gy) inst_add_b_bw;
+  Proved "fw_cos" (forall (x : R), aefw_cos Rops x = efw_cos x /\ afw_cos Rops x = fw_cos x) inst_cos_fw;
+  Proved "bw_cos" (forall (x : R) (y : R) (gy : R), aebw_cos Rops x y gy = ebw_cos x y gy /\ abw_cos Rops x y gy = bw_cos x y gy) inst_cos_bw;
+  Proved "fw_divide_const_r" (forall (x : R) (k : R), aefw_divide_const_r Rops x k = efw_divide_const_r x k /\ afw_divide_const_r Rops x k = fw_divide_const_r x k) inst_divide_const_r_fw;
+  Proved "bw_divide_const_r" (forall (x : R) (y : R) (gy : R) (k : R), aebw_divide_const_r Rops x y gy k = ebw_divide_const_r x y gy k /\ abw_divide_const_r Rops x y gy k = bw_divide_const_r x y gy k) inst_divide_const_r_bw;
+  Proved "fw_divide_const_l" (forall (x : R) (k : R), aefw_divide_const_l Rops x k = efw_divide_const_l x k /\ afw_divide_const_l Rops x k = fw_divide_const_l x k) inst_divide_const_l_fw;
+  Proved "bw_divide_const_l" (forall (x : R) (y : R) (gy : R) (k : R), aebw_divide_const_l Rops x y gy k = ebw_divide_const_l x y gy k /\ abw_divide_const_l Rops x y gy k = bw_divide_const_l x y gy k) inst_divide_const_l_bw;
+  Proved "fw_divide_scalar_r" (forall (x : R) (k : R), aefw_divide_scalar_r Rops x k = efw_divide_scalar_r x k /\ afw_divide_scalar_r Rops x k = fw_divide_scalar_r x k) inst_divide_scalar_r_fw;
+  Proved "fw_divide_scalar_l" (forall (x : R) (k : R), aefw_divide_scalar_l Rops x k = efw_divide_scalar_l x k /\ afw_divide_scalar_l Rops x k = fw_divide_scalar_l x k) inst_divide_scalar_l_fw;
+  Proved "fw_divide" (forall (a : R) (b : R), aefw_divide Rops a b = efw_divide a b /\ afw_divide Rops a b = fw_divide a b) inst_divide_fw;
+  Proved "bw_divide_a" (forall (a : R) (b : R) (y : R) (gy : R), aebw_divide_a Rops a b y gy = ebw_divide_a a b y gy /\ abw_divide_a Rops a b y gy = bw_divide_a a b y gy) inst_divide_a_bw;
+  Proved "bw_divide_b" (forall (a : R) (b : R) (y : R) (gy : R), aebw_divide_b Rops a b y gy = ebw_divide_b a b y gy /\ abw_divide_b Rops a b y gy = bw_divide_b a b y gy) inst_divide_b_bw;
+  Proved "fw_elu" (forall (x : R) (k : R), aefw_elu Rops x k = efw_elu x k /\ afw_elu Rops x k = fw_elu x k) inst_elu_fw;
+  Proved "bw_elu" (forall (x : R) (y : R) (gy : R) (k : R), aebw_elu Rops x y gy k = ebw_elu x y gy k /\ abw_elu Rops x y gy k = bw_elu x y gy k) inst_elu_bw;
+  Proved "fw_exp" (forall (x : R), aefw_exp Rops x = efw_exp x /\ afw_exp Rops x = fw_exp x) inst_exp_fw;
+  Proved "bw_exp" (forall (x : R) (y : R) (gy : R), aebw_exp Rops x y gy = ebw_exp x y gy /\ abw_exp Rops x y gy = bw_exp x y gy) inst_exp_bw;
+  Proved "fw_log" (forall (x : R), aefw_log Rops x = efw_log x /\ afw_log Rops x = fw_log x) inst_log_fw;
+  Proved "bw_log" (forall (x : R) (y : R) (gy : R), aebw_log Rops x y gy = ebw_log x y gy /\ abw_log Rops x y gy = bw_log x y gy) inst_log_bw;
+  Proved "fw_multiply_const" (forall (x : R) (k : R), aefw_multiply_const Rops x k = efw_multiply_const x k /\ afw_multiply_const Rops x k = fw_multiply_const x k) inst_multiply_const_fw;
+  Proved "bw_multiply_const" (forall (x : R) (y : R) (gy : R) (k : R), aebw_multiply_const Rops x y gy k = ebw_multiply_const x y gy k /\ abw_multiply_const Rops x y gy k = bw_multiply_const x y gy k) inst_multiply_const_bw;
+  Proved "fw_multiply_scalar" (forall (x : R) (k : R), aefw_multiply_scalar Rops x k = efw_multiply_scalar x k /\ afw_multiply_scalar Rops x k = fw_multiply_scalar x k) inst_multiply_scalar_fw;
+  Proved "fw_multiply" (forall (a : R) (b : R), aefw_multiply Rops a b = efw_multiply a b /\ afw_multiply Rops a b = fw_multiply a b) inst_multiply_fw;
+  Proved "bw_multiply_a" (forall (a : R) (b : R) (y : R) (gy : R), aebw_multiply_a Rops a b y gy = ebw_multiply_a a b y gy /\ abw_multiply_a Rops a b y gy = bw_multiply_a a b y gy) inst_multiply_a_bw;
+  Proved "bw_multiply_b" (forall (a : R) (b : R) (y : R) (gy : R), aebw_multiply_b Rops a b y gy = ebw_multiply_b a b y gy /\ abw_multiply_b Rops a b y gy = bw_multiply_b a b y gy) inst_multiply_b_bw;
+  Proved "fw_negate" (forall (x : R), aefw_negate Rops x = efw_negate x /\ afw_negate Rops x = fw_negate x) inst_negate_fw;
+  Proved "fw_pow_const_r" (forall (x : R) (k : R), aefw_pow_const_r Rops x k = efw_pow_const_r x k /\ afw_pow_const_r Rops x k = fw_pow_const_r x k) inst_pow_const_r_fw;
+  Proved "bw_pow_const_r" (forall (x : R) (y : R) (gy : R) (k : R), aebw_pow_const_r Rops x y gy k = ebw_pow_const_r x y gy k /\ abw_pow_const_r Rops x y gy k = bw_pow_const_r x y gy k) inst_pow_const_r_bw;
+  Proved "fw_pow_const_l" (forall (x : R) (k : R), aefw_pow_const_l Rops x k = efw_pow_const_l x k /\ afw_pow_const_l Rops x k = fw_pow_const_l x k) inst_pow_const_l_fw;
+  Proved "bw_pow_const_l" (forall (x : R) (y : R) (gy : R) (k : R), aebw_pow_const_l Rops x y gy k = ebw_pow_const_l x y gy k /\ abw_pow_const_l Rops x y gy k = bw_pow_const_l x y gy k) inst_pow_const_l_bw;
+  Proved "fw_pow_scalar_r" (forall (x : R) (k : R), aefw_pow_scalar_r Rops x k = efw_pow_scalar_r x k /\ afw_pow_scalar_r Rops x k = fw_pow_scalar_r x k) inst_pow_scalar_r_fw;
+  Proved "fw_pow_scalar_l" (forall (x : R) (k : R), aefw_pow_scalar_l Rops x k = efw_pow_scalar_l x k /\ afw_pow_scalar_l Rops x k = fw_pow_scalar_l x k) inst_pow_scalar_l_fw;
+  Proved "fw_pow" (forall (a : R) (b : R), aefw_pow Rops a b = efw_pow a b /\ afw_pow Rops a b = fw_pow a b) inst_pow_fw;
+  Proved "bw_pow_a" (forall (a : R) (b : R) (y : R) (gy : R), aebw_pow_a Rops a b y gy = ebw_pow_a a b y gy /\ abw_pow_a Rops a b y gy = bw_pow_a a b y gy) inst_pow_a_bw;
+  Proved "bw_pow_b" (forall (a : R) (b : R) (y : R) (gy : R), aebw_pow_b Rops a b y gy = ebw_pow_b a b y gy /\ abw_pow_b Rops a b y gy = bw_pow_b a b y gy) inst_pow_b_bw;
+  Proved "fw_pown" (forall (x : R) (k : Z), aefw_pown Rops x k = efw_pown x k /\ afw_pown Rops x k = fw_pown x k) inst_pown_fw;
+  Proved "bw_pown" (forall (x : R) (y : R) (gy : R) (k : Z), aebw_pown Rops x y gy k = ebw_pown x y gy k /\ abw_pown Rops x y gy k = bw_pown x y gy k) inst_pown_bw;
+  Proved "fw_prelu" (forall (x : R) (k : R), aefw_prelu Rops x k = efw_prelu x k /\ afw_prelu Rops x k = fw_prelu x k) inst_prelu_fw;
+  Proved "bw_prelu" (forall (x : R) (y : R) (gy : R) (k : R), aebw_prelu Rops x y gy k = ebw_prelu x y gy k /\ abw_prelu Rops x y gy k = bw_prelu x y gy k) inst_prelu_bw;
+  Proved "fw_sigmoid" (forall (x : R), aefw_sigmoid Rops x = efw_sigmoid x /\ afw_sigmoid Rops x = fw_sigmoid x) inst_sigmoid_fw;
+  Proved "bw_sigmoid" (forall (x : R) (y : R) (gy : R), aebw_sigmoid Rops x y gy = ebw_sigmoid x y gy /\ abw_sigmoid Rops x y gy = bw_sigmoid x y gy) inst_sigmoid_bw;
+  Proved "fw_sin" (forall (x : R), aefw_sin Rops x = efw_sin x /\ afw_sin Rops x = fw_sin x) inst_sin_fw;
+  Proved "bw_sin" (forall (x : R) (y : R) (gy : R), aebw_sin Rops x y gy = ebw_sin x y gy /\ abw_sin Rops x y gy = bw_sin x y gy) inst_sin_bw;
+  Proved "fw_softplus" (forall (x : R), aefw_softplus Rops x = efw_softplus x /\ afw_softplus Rops x = fw_softplus x) inst_softplus_fw;
+  Proved "bw_softplus" (forall (x : R) (y : R) (gy : R), aebw_softplus Rops x y gy = ebw_softplus x y gy /\ abw_softplus Rops x y gy = bw_softplus x y gy) inst_softplus_bw;
+  Proved "fw_sqrt" (forall (x : R), aefw_sqrt Rops x = efw_sqrt x /\ afw_sqrt Rops x = fw_sqrt x) inst_sqrt_fw;
+  Proved "bw_sqrt" (forall (x : R) (y : R) (gy : R), aebw_sqrt Rops x y gy = ebw_sqrt x y gy /\ abw_sqrt Rops x y gy = bw_sqrt x y gy) inst_sqrt_bw;
+  Proved "fw_subtract_const_r" (forall (x : R) (k : R), aefw_subtract_const_r Rops x k = efw_subtract_const_r x k /\ afw_subtract_const_r Rops x k = fw_subtract_const_r x k) inst_subtract_const_r_fw;
+  Proved "bw_subtract_const_r" (forall (x : R) (y : R) (gy : R) (k : R), aebw_subtract_const_r Rops x y gy k = ebw_subtract_const_r x y gy k /\ abw_subtract_const_r Rops x y gy k = bw_subtract_const_r x y gy k) inst_subtract_const_r_bw;
+  Proved "fw_subtract_const_l" (forall (x : R) (k : R), aefw_subtract_const_l Rops x k = efw_subtract_const_l x k /\ afw_subtract_const_l Rops x k = fw_subtract_const_l x k) inst_subtract_const_l_fw;
+  Proved "bw_subtract_const_l" (forall (x : R) (y : R) (gy : R) (k : R), aebw_subtract_const_l Rops x y gy k = ebw_subtract_const_l x y gy k /\ abw_subtract_const_l Rops x y gy k = bw_subtract_const_l x y gy k) inst_subtract_const_l_bw;
+  Proved "fw_subtract_scalar_r" (forall (x : R) (k : R), aefw_subtract_scalar_r Rops x k = efw_subtract_scalar_r x k /\ afw_subtract_scalar_r Rops x k = fw_subtract_scalar_r x k) inst_subtract_scalar_r_fw;
+  Proved "fw_subtract_scalar_l" (forall (x : R) (k : R), aefw_subtract_scalar_l Rops x k = efw_subtract_scalar_l x k /\ afw_subtract_scalar_l Rops x k = fw_subtract_scalar_l x k) inst_subtract_scalar_l_fw;
+  Proved "fw_subtract" (forall (a : R) (b : R), aefw_subtract Rops a b = efw_subtract a b /\ afw_subtract Rops a b = fw_subtract a b) inst_subtract_fw;
+  Proved "bw_subtract_a" (forall (a : R) (b : R) (y : R) (gy : R), aebw_subtract_a Rops a b y gy = ebw_subtract_a a b y gy /\ abw_subtract_a Rops a b y gy = bw_subtract_a a b y gy) inst_subtract_a_bw;
+  Proved "bw_subtract_b" (forall (a : R) (b : R) (y : R) (gy : R), aebw_subtract_b Rops a b y gy = ebw_subtract_b a b y gy /\ abw_subtract_b Rops a b y gy = bw_subtract_b a b y gy) inst_subtract_b_bw;
+  Proved "fw_tan" (forall (x : R), aefw_tan Rops x = efw_tan x /\ afw_tan Rops x = fw_tan x) inst_tan_fw;
+  Proved "bw_tan" (forall (x : R) (y : R) (gy : R), aebw_tan Rops x y gy = ebw_tan x y gy /\ abw_tan Rops x y gy = bw_tan x y gy) inst_tan_bw;
+  Proved "fw_tanh" (forall (x : R), aefw_tanh Rops x = efw_tanh x /\ afw_tanh Rops x = fw_tanh x) inst_tanh_fw;
+  Proved "bw_tanh" (forall (x : R) (y : R) (gy : R), aebw_tanh Rops x y gy = ebw_tanh x y gy /\ abw_tanh Rops x y gy = bw_tanh x y gy) inst_tanh_bw
+].
+
+(* the Naive name, the concrete statement over Coq's real functions (corollary) *)
+Definition elem_table_R : list proved := [
   Proved "fw_abs" (forall (x : R), efw_abs x = fw_abs x) abs_fw_same;
   Proved "bw_abs" (forall (x : R) (y : R) (gy : R), ebw_abs x y gy = bw_abs x y gy) abs_bw_same;
   Proved "fw_add_const" (forall (x : R) (k : R), efw_add_const x k = fw_add_const x k) add_const_fw_same;
@@ -399,7 +949,7 @@ Definition elem_table : list proved := [
   Proved "bw_tanh" (forall (x : R) (y : R) (gy : R), ebw_tanh x y gy = bw_tanh x y gy) tanh_bw_same
 ].
 
-Lemma elem_table_holds : Forall pstmt elem_table.
+Lemma table_holds (t : list proved) : Forall pstmt t.
 Proof. apply Forall_forall. intros p _. exact (pproof p). Qed.
 
 Definition covered : list string := map pname elem_table.
@@ -407,6 +957,7 @@ Definition covered : list string := map pname elem_table.
 Definition mem (n : string) (l : list string) : bool := existsb (String.eqb n) l.
 Definition same_set (a b : list string) : bool :=
   forallb (fun n => mem n b) a && forallb (fun n => mem n a) b && Nat.eqb (List.length a) (List.length b).
+Definition pre (p : string) (l : list string) : list string := map (fun n => (p ++ n)%string) l.
 
 (* the one definition of Gen/ScalarGen.v that is not a kernel of its own: the pairwise update of
    logsumexp.cc, a kernel file both backends share (Backend/SameSource.v) *)
@@ -433,10 +984,15 @@ Definition other_files : list string :=
     "transpose" ]%string.
 
 Definition elem_complete_b : bool :=
-  (* every definition the Eigen translator produced has a row, and every row a definition *)
-  same_set (map (fun n => ("e" ++ n)%string) covered) egen_names
-  (* every Naive formula except the logsumexp step has a row, and every row is a Naive formula *)
+  (* every definition the Eigen translator produced has a row, and every row a definition:
+     concrete and abstract file *)
+  same_set (pre "e" covered) egen_names && same_set (pre "ae" covered) aegen_names
+  (* every Naive formula except the logsumexp step has a row, and every row is a Naive formula:
+     concrete and abstract file *)
   && same_set covered (filter (fun n => negb (mem n naive_only)) gen_names)
+  && same_set (pre "a" (covered ++ naive_only)) agen_names
+  (* the three tables have the same rows *)
+  && same_set covered (map pname inst_table) && same_set covered (map pname elem_table_R)
   (* both translators translated everything *)
   && Nat.eqb egen_translation_errors 0 && Nat.eqb gen_translation_errors 0
   (* same update operator on both backends: forward kernels assign, backward kernels accumulate *)
@@ -451,7 +1007,23 @@ Proof. vm_compute. reflexivity. Qed.
 Lemma covered_count : List.length covered = 66%nat.
 Proof. reflexivity. Qed.
 
-(* ---------------------------------------------------------------- non-vacuity: values at rational points *)
+(* ---------------------------------------------------------------- non-vacuity *)
+
+(* the abstract statements are not about Rops only: an interpretation under which pow is NOT
+   exp (b * ln a) and division is not Rdiv, and the hypotheses of the two conditional lemmas hold *)
+Definition odd_ops : ops :=
+  Ops (fun a b => a * (b + 7)) (fun a b => a - b) (fun x => 1 + x * x) (fun x => x + 3) (fun x => - x)
+      (fun x => 2 * x) (fun x => x) (fun x => x + 1) (fun x => 5).
+
+Lemma odd_ops_ok :
+  op_exp odd_ops 0 = 1 /\ (forall p q r, op_div odd_ops (p * r) q = op_div odd_ops p q * r) /\
+  op_pow odd_ops 2 3 <> op_exp odd_ops (3 * op_ln odd_ops 2) /\
+  aefw_pow odd_ops 2 3 = -1 /\ afw_pow odd_ops 2 3 = -1 /\
+  aebw_divide_b odd_ops 3 2 5 4 = - 180 /\ abw_divide_b odd_ops 3 2 5 4 = - 180.
+Proof.
+  unfold aefw_pow, afw_pow, aebw_divide_b, abw_divide_b. simpl.
+  repeat split; try lra. intros; ring.
+Qed.
 
 Lemma values_prelu : efw_prelu (-2) (1 / 4) = - (1 / 2) /\ fw_prelu (-2) (1 / 4) = - (1 / 2).
 Proof. split; unfold efw_prelu, fw_prelu, b01; split_cmps; try (exfalso; lra); lra. Qed.
@@ -470,5 +1042,4 @@ Lemma values_abs_bw : ebw_abs (-7) 7 2 = -2 /\ bw_abs (-7) 7 2 = -2.
 Proof. split; unfold ebw_abs, bw_abs, esign, b01; split_cmps; try (exfalso; lra); lra. Qed.
 
 Lemma values_pow_const_r_bw : ebw_pow_const_r 5 25 3 2 = 30 /\ bw_pow_const_r 5 25 3 2 = 30.
-Proof. split; unfold ebw_pow_const_r, bw_pow_const_r; lra.
-Qed.
+Proof. split; unfold ebw_pow_const_r, bw_pow_const_r; lra. Qed.
